@@ -293,6 +293,41 @@ impl Ranking {
 
     /// C06 on the whole e-commerce corpus: far beyond the candidate cap (soundness), and with a
     /// limit of 400 (|store| <= 10*limit: completeness against the unlimited corpus store).
+    /// Stores of 33 000 - 140 000 records that all carry the same one-word title and pairwise distinct ratings: every
+    /// record matches the query (and alone would be a hit), so the expected list is known without asking the library
+    /// twice - the `limit` best-rated ids in descending rating order. Limits around |store|, |store|/10 and 3277-3300,
+    /// where 10*limit and the list length cross 2^15, 2^16 and 2^17.
+    fn huge_case(&self, cx: &mut Cx, lang: &'static str) {
+        let n = *cx.rng.pick(&[33_000usize, 40_000, 66_000, 70_000, 132_000]);
+        let word = *cx.rng.pick(&["a", "ab", "lamp"]);
+        let mut order: Vec<usize> = (0..n).collect();
+        cx.rng.shuffle(&mut order);
+        let mut st = St::sentinel(lang, n + 1);
+        for (i, r) in order.iter().enumerate() {
+            st.add(&(i, word.to_string(), *r + 1));
+        }
+        // ids by rating, best first
+        let mut best: Vec<usize> = (0..n).collect();
+        best.sort_by(|a, b| order[*b].cmp(&order[*a]));
+        cx.count("stores of 33 000 - 140 000 records with one title");
+        for limit in [n + 1, n, (n + 9) / 10, 3300.max((n + 9) / 10), 32_769.min(n), 65_537.min(n)].iter() {
+            st.store.limit = *limit;
+            for q in [word, ""].iter() {
+                cx.ctx(format!("C06 huge lang={} n={} title={:?} limit={} q={:?}", lang, n, word, limit, q));
+                let got = st.search_ids(q);
+                cx.eval();
+                let want: Vec<usize> = best.iter().take(*limit).cloned().collect();
+                if got != want {
+                    let first = got.iter().zip(want.iter()).position(|(a, b)| a != b);
+                    cx.fail("not-the-first-limit-of-unlimited", json!({"lang": lang, "records": n, "record_shape": format!("every title is {:?}, ratings are a permutation of 1..=n", word), "limit": limit, "query": q,
+                        "got_length": got.len(), "expected_length": want.len(), "first_difference_at": first, "got_ids_head": got.iter().take(8).collect::<Vec<_>>(), "expected_ids_head": want.iter().take(8).collect::<Vec<_>>()}));
+                    return;
+                }
+            }
+        }
+        cx.key(hparts(&[lang, &n.to_string(), word, "huge"]));
+    }
+
     fn verdicts_corpus(&self, cx: &mut Cx, lang: &'static str) {
         let recs = corpus_recs();
         let limit = *cx.rng.pick(&[1usize, 3, 10, 50, 400]);
@@ -915,7 +950,7 @@ impl Prop for Ranking {
     }
     fn streams(&self) -> Vec<Stream> {
         match self.0 {
-            Which::Verdicts => vec![Stream::new("stores", 6400, 320000), Stream::new("corpus", 48, 960), Stream::new("large", 800, 16000)],
+            Which::Verdicts => vec![Stream::new("stores", 6400, 320000), Stream::new("corpus", 48, 960), Stream::new("large", 800, 16000), Stream::new("huge", 8, 48)],
             Which::Order => vec![Stream::new("stores", 3200, 160000), Stream::new("large", 400, 8000)],
             Which::Rules => vec![Stream::new("rules", 8400, 420000)],
             Which::Empty => vec![Stream::new("stores", 32000, 1600000)],
@@ -923,7 +958,7 @@ impl Prop for Ranking {
     }
     fn floors(&self) -> Vec<(&'static str, u64, u64)> {
         match self.0 {
-            Which::Verdicts => vec![("truncated (more matches than limit)", 200, 2000), ("beyond the 10x cap (soundness only)", 100, 1000), ("limit 0", 50, 500), ("selection buffer refilled (matches >= 2*limit)", 100, 1000), ("store with tied ratings (set comparison)", 50, 500), ("empty query", 50, 500), ("corpus-store searches", 100, 2000), ("corpus-store searches compared with the unlimited corpus store", 10, 200), ("large stores (limit 50-200)", 400, 8000), ("large stores whose match count is an exact multiple of the limit", 20, 400), ("stores of more than 2048 records", 8, 160), ("stores of 66-260 records", 300, 3000), ("stores built in stages with searches and limit changes in between", 3000, 30000), ("configurations whose reference stores live on threads of their own", 1500, 15000)],
+            Which::Verdicts => vec![("truncated (more matches than limit)", 200, 2000), ("beyond the 10x cap (soundness only)", 100, 1000), ("limit 0", 50, 500), ("selection buffer refilled (matches >= 2*limit)", 100, 1000), ("store with tied ratings (set comparison)", 50, 500), ("empty query", 50, 500), ("corpus-store searches", 100, 2000), ("corpus-store searches compared with the unlimited corpus store", 10, 200), ("large stores (limit 50-200)", 400, 8000), ("large stores whose match count is an exact multiple of the limit", 20, 400), ("stores of more than 2048 records", 8, 160), ("stores of 66-260 records", 300, 3000), ("stores built in stages with searches and limit changes in between", 3000, 30000), ("configurations whose reference stores live on threads of their own", 1500, 15000), ("stores of 33 000 - 140 000 records with one title", 8, 48)],
             Which::Order => vec![("pair stores", 2000, 20000), ("permuted stores", 2000, 20000), ("searches with >= 2 hits", 300, 3000), ("truncated lists compared across permutations", 30, 300), ("stores of similar words", 500, 5000), ("pairs involving a hit ranked 7th or lower", 300, 3000), ("large stores (limit 50-200)", 200, 4000), ("stores of more than 2048 records", 4, 80), ("stores with ratings in [2^31, 2^32)", 200, 2000), ("stores with ratings spread over the whole usize range", 100, 1000), ("configurations whose reference stores live on threads of their own", 200, 2000), ("stores built in stages with searches and limit changes in between", 300, 3000)],
             Which::Rules => vec![("rule exact>typo", 500, 5000), ("rule both>one", 500, 5000), ("rule prefix: exact>tail", 500, 5000), ("rule adjacent>gap", 500, 5000), ("rule first>second", 500, 5000), ("rule identical titles: rating decides", 300, 3000), ("rule equal rating: shorter title first", 300, 3000), ("rule function word: content word first", 1000, 10000), ("u made of two function words run together", 300, 3000), ("rule cases with a third, unrelated record", 20000, 200000), ("identical titles with ratings 1-3 apart", 1000, 10000), ("tails of 13-70 letters", 500, 5000), ("u tagged with a part of speech that is not a function-word kind", 150, 1500)],
             Which::Empty => vec![("searches after further adds", 1000, 10000), ("truncated lists with tied ratings", 500, 5000), ("stores with distinct ratings", 500, 5000), ("limit 0", 100, 1000), ("stores of 13-60 records", 1000, 10000), ("stores whose titles share a prefix of 20-40 characters", 1500, 15000), ("stores with adjacent ratings above 2^24", 1000, 10000), ("searches after a limit change", 1000, 10000), ("adds under a temporarily lowered limit", 1000, 10000), ("empty-query searches right after a search with words", 5000, 50000)],
@@ -939,6 +974,7 @@ impl Prop for Ranking {
         let lang = LANGS[(idx % NL) as usize];
         match self.0 {
             Which::Verdicts if stream == "large" => self.large_case(cx, lang, false),
+            Which::Verdicts if stream == "huge" => self.huge_case(cx, lang),
             Which::Order if stream == "large" => self.large_case(cx, lang, true),
             Which::Verdicts if stream == "corpus" => self.verdicts_corpus(cx, if idx % 2 == 0 { "en" } else { "none" }),
             Which::Verdicts => self.verdicts(cx, lang),
